@@ -10,7 +10,7 @@ JOINTS_ORI = ["Spherical", "Revolute", "RigidConnection", "Prismatic", "Cylindri
 
 
 def build_chain(rng, nbodies=None, closed=False, base="origin", springs=True, point_masses=True, joint_kinds=None,
-                gravity=True, t0=0.0, initial_velocity=False):
+                gravity=True, t0=0.0, initial_velocity=False, actuators=False):
     """chain base - j1 - b1 - j2 - b2 ... (optionally closed by a spherical joint back to the base).
     Bodies start at rest unless the base is a moving frame, in which case the whole chain moves rigidly
     with the frame at t0 (consistent with every joint). Returns (system, info)."""
@@ -69,6 +69,18 @@ def build_chain(rng, nbodies=None, closed=False, base="origin", springs=True, po
         else:
             j = getattr(C, jk)(prev, b, axis, r_OJ0=r_J, A_IJ0=A_J); j.name = f"j{i}"
         S.add(b, j)
+        if actuators and jk == "Revolute" and rng.random() < 0.7:
+            from cardillo.actuators import Motor, PDcontroller
+            a_, w_ = float(rng.normal() * 3), float(rng.uniform(0.5, 3))
+            if rng.random() < 0.5:
+                act = Motor(j, (lambda t, a_=a_, w_=w_: a_ * np.cos(w_ * t)) if rng.random() < 0.5 else a_)
+                info.setdefault("actuators", []).append("Motor")
+            else:
+                act = PDcontroller(j, float(loguniform(rng, 1, 30)), float(loguniform(rng, 0.1, 3)),
+                                   lambda t, a_=a_, w_=w_: np.array([0.2 * a_ * np.sin(w_ * t), 0.2 * a_ * w_ * np.cos(w_ * t)]))
+                info.setdefault("actuators", []).append("PD")
+            act.name = f"act{i}"
+            S.add(act)
         if gravity:
             S.add(Force(b.mass * GRAV, b, name=f"grav{i}"))
         bodies.append(b); joints.append(j)
